@@ -78,10 +78,14 @@ PROPERTIES.update({
         "verus": [],
         "kani_quick": ["k_c04_add_assign"],
         "kani_thorough": [],
+        "bounded_native": [
+            {"unit": "b_c04_integer_set_expression", "functions": "TryFrom<&Constraint> for PerVisibleRangeConstraints -> fold_constraint_set, intersect_single_and_range, union_single_and_range, compare_optional_asn1values / union_optional_asn1values (per_visible.rs)",
+             "bound": "expressions a | a op b | a op (b op c) over INTEGER operands (single value or range, each end one of 7 points {-129,-1,0,1,5,255,256} or MIN/MAX), operators {|, ^, EXCEPT}; exhaustive prefix then seeded random sample up to the evaluation limit; empty intersections excluded"},
+        ],
         "unverified": [
             "subtype-expression parser (lexer/constraint.rs, nom)",
             "reference resolution in validator/linking/constraints.rs",
-            "fold_constraint_set, intersect_single_and_range, union_single_and_range, compare_optional_asn1values (per_visible.rs:497-1018): union hull, EXCEPT, MIN/MAX handling and operator precedence are NOT decided by this check",
+            "fold_constraint_set, intersect_single_and_range, union_single_and_range, compare_optional_asn1values (per_visible.rs) are outside both verifiers (clone-heavy AST code with closures, String/BTreeMap alphabets; Kani: i128-bearing AST); integer set expressions are covered only by the bounded stand-in b_c04_integer_set_expression; SIZE(...) wrappers, character ranges, ContainedSubtype and operator precedence in the parser (a ^ b | c is parsed right-associatively) are not covered",
             "format_range_annotations and fixed_size (TokenStream code)",
         ],
     },
